@@ -178,5 +178,34 @@ def run(ctx):
             ctx.replayed()
     if vectors:
         ctx.sample({"kind": "split vector", **{k: vectors[0][k] for k in ("mode", "F", "D", "E", "sel")}})
+    # ---- "overlapping boxes are rejected" for every PAIR of the list, in whatever order the boxes are given
+    import itertools
+    freq3 = np.round(np.arange(0.05, 0.41, 0.025), 3)
+    dirs3 = np.arange(0.0, 360.0, 15.0)
+    rs = np.random.RandomState(ctx.seed)
+    da3 = xr.DataArray(rs.rand(freq3.size, dirs3.size) + 0.1, coords={"freq": freq3, "dir": dirs3}, dims=("freq", "dir"), name="efth")
+    A = dict(fmin=0.06, fmax=0.30, dmin=10.0, dmax=100.0)
+    B = dict(fmin=0.11, fmax=0.19, dmin=190.0, dmax=280.0)       # sorts between A and C on every limit, overlaps neither
+    C = dict(fmin=0.16, fmax=0.26, dmin=50.0, dmax=140.0)        # shares bins with A
+    Cd = dict(fmin=0.31, fmax=0.39, dmin=50.0, dmax=140.0)       # disjoint control
+    for perm in itertools.permutations((A, B, C)):
+        ctx.case(("bbox-overlap3", tuple(tuple(sorted(b.items())) for b in perm)), True)
+        try:
+            da3.spec.partition.bbox([dict(b) for b in perm])
+            ctx.violation({"mode": "bbox", "clause": "overlap-rejected", "boxes": 3}, "bbox accepted three boxes of which two overlap (A and C share bins; B lies between them)",
+                          {"boxes": [dict(b) for b in perm]})
+        except ValueError:
+            ctx.replayed()
+    for perm in itertools.permutations((A, B, Cd)):
+        ctx.case(("bbox-disjoint3", tuple(tuple(sorted(b.items())) for b in perm)), True)
+        try:
+            out = da3.spec.partition.bbox([dict(b) for b in perm])
+            ok = np.allclose(out.sum("part").values, da3.values) and out.sizes["part"] == 4
+        except Exception:  # noqa
+            ok = False
+        if ok:
+            ctx.replayed()
+        else:
+            ctx.violation({"mode": "bbox", "clause": "disjoint-accepted", "boxes": 3}, "bbox rejected or mis-split three disjoint boxes", {"boxes": [dict(b) for b in perm]})
     ctx.assume("PTM4 wind patterns are realised with per-direction wind speed aligned with each bin direction (agefac 1), equality with the "
                "library's own celerity value; finite depth 40 m")
